@@ -14,6 +14,7 @@ std::string ruleName(const IssuePtr &issue);
 struct Variant
 {
     bool revEq = false, revVars = false, compBA = false;
+    bool cross = false; // in component B the classes x1 and x2 go by each other's name
     std::string prefix;
 };
 
@@ -69,6 +70,13 @@ static std::string writeModel(const J &sys, const Variant &vr, const J &external
     home["u"] = "A";
     home["w"] = "A";
     auto P = [&](const std::string &n) { return vr.prefix + n; };
+    auto V = [&](const std::string &n, const std::string &comp) {
+        std::string m = n;
+        if (vr.cross && comp == "B") {
+            m = n == "x1" ? "x2" : (n == "x2" ? "x1" : n);
+        }
+        return vr.prefix + m;
+    };
     std::string faultKind = sys["fault"]["kind"].str("none");
     std::string faultName = sys["fault"]["name"].str("none");
     std::map<std::string, std::string> compText;
@@ -103,7 +111,7 @@ static std::string writeModel(const J &sys, const Variant &vr, const J &external
                     init = " initial_value=\"1\"";
                 }
             }
-            s += "  <variable name=\"" + P(n) + "\" units=\"" + unitsOf(comp) + "\"" + init + " interface=\"public\"/>\n";
+            s += "  <variable name=\"" + V(n, comp) + "\" units=\"" + unitsOf(comp) + "\"" + init + " interface=\"public\"/>\n";
         }
         std::vector<std::string> eqs;
         for (auto &c : classes.a) {
@@ -112,7 +120,7 @@ static std::string writeModel(const J &sys, const Variant &vr, const J &external
             }
             std::string rhs = "<apply><plus/><cn cellml:units=\"" + unitsOf(comp) + "\">" + std::to_string(c["k"].num()) + "</cn>";
             for (auto &d : c["deps"].a) {
-                rhs += "<ci>" + P(d.str()) + "</ci>";
+                rhs += "<ci>" + V(d.str(), comp) + "</ci>";
             }
             rhs += "</apply>";
             if (c["deps"].size() == 0) {
@@ -120,13 +128,13 @@ static std::string writeModel(const J &sys, const Variant &vr, const J &external
             } else if (c["k"].num() == 0) { // no constant term: a bare <ci> or a sum of <ci>
                 rhs = "";
                 for (auto &d : c["deps"].a) {
-                    rhs += "<ci>" + P(d.str()) + "</ci>";
+                    rhs += "<ci>" + V(d.str(), comp) + "</ci>";
                 }
                 if (c["deps"].size() > 1) {
                     rhs = "<apply><plus/>" + rhs + "</apply>";
                 }
             }
-            std::string lhs = "<ci>" + P(c["name"].str()) + "</ci>";
+            std::string lhs = "<ci>" + V(c["name"].str(), comp) + "</ci>";
             if (c["role"].str() == "state") {
                 lhs = "<apply><diff/><bvar><ci>" + P("t") + "</ci></bvar>" + lhs + "</apply>";
             }
@@ -173,7 +181,7 @@ static std::string writeModel(const J &sys, const Variant &vr, const J &external
         std::string maps;
         for (auto &n : vars["B"]) {
             if (seen["A"].count(n)) {
-                maps += "<map_variables variable_1=\"" + P(n) + "\" variable_2=\"" + P(n) + "\"/>";
+                maps += "<map_variables variable_1=\"" + V(n, "A") + "\" variable_2=\"" + V(n, "B") + "\"/>";
             }
         }
         if (!maps.empty()) {
@@ -202,7 +210,7 @@ static bool owningModelIs(const VariablePtr &v, const ModelPtr &m)
 }
 
 // classification summary: model type + per analyser variable (class name, component, type, kind/index)
-static J summarise(const AnalyserModelPtr &am, const std::string &prefix, bool full)
+static J summarise(const AnalyserModelPtr &am, const std::string &prefix, bool full, bool cross = false)
 {
     J r = J::obj();
     r.set("type", AnalyserModel::typeAsString(am->type()));
@@ -214,8 +222,13 @@ static J summarise(const AnalyserModelPtr &am, const std::string &prefix, bool f
         auto comp = std::dynamic_pointer_cast<Component>(var->parent());
         std::string id = kind + std::to_string(av->index());
         idOf[av.get()] = id;
-        v.set("id", id).set("kind", kind).set("index", J(av->index())).set("name", stripPrefix(var->name(), prefix));
-        v.set("comp", comp ? stripPrefix(comp->name(), prefix) : "none").set("type", AnalyserVariable::typeAsString(av->type()));
+        std::string cname = comp ? stripPrefix(comp->name(), prefix) : "none";
+        std::string vname = stripPrefix(var->name(), prefix);
+        if (cross && cname == "B") {
+            vname = vname == "x1" ? "x2" : (vname == "x2" ? "x1" : vname);
+        }
+        v.set("id", id).set("kind", kind).set("index", J(av->index())).set("name", vname);
+        v.set("comp", cname).set("type", AnalyserVariable::typeAsString(av->type()));
         v.set("units", var->units() ? var->units()->name() : "none");
         vars.push(v);
     };
@@ -467,7 +480,8 @@ static void systemDrv(const J &sc, Emitter &out)
     const J &sys = sc["sys"];
     J ev = J::obj();
     ev.set("e", "system").set("sys", sys).set("run", sc["run"]).set("expect", sc["expect"]);
-    std::vector<Variant> variants(6);
+    std::vector<Variant> variants(7);
+    variants[6].cross = true;
     variants[1].revEq = true;
     variants[2].revVars = true;
     variants[3].compBA = true;
@@ -484,7 +498,7 @@ static void systemDrv(const J &sc, Emitter &out)
         validator->validateModel(model);
         auto analyser = Analyser::create();
         analyser->analyseModel(model);
-        J s = summarise(analyser->model(), variants[i].prefix, i == 0);
+        J s = summarise(analyser->model(), variants[i].prefix, i == 0, variants[i].cross);
         s.set("validErrors", J(validator->errorCount())).set("analyserErrors", J(analyser->errorCount()));
         if (i == 0) {
             s.set("alog", loggerObs(analyser));
